@@ -678,15 +678,40 @@ class World:
                         st.rows[(tag, eid)] = "rejected-by-provider"
         if st is not None:
             st.gate = None
+        if mode == "dropconn":
+            # the connection drops at the very first provider call of the new engine (restoring the stored cursor goes
+            # through the connection for real cloud providers): the cursor restore raises once and the session is gone
+            import cloudsync.exceptions as _ex
+            for p in self.provs:
+                base_cls = type(p)
+                if getattr(base_cls, "_vmc_dropconn", False):
+                    base_cls = base_cls.__mro__[1]
+                state = {"left": 1}
+                prop = base_cls.current_cursor
+
+                def getter(self_, _prop=prop):
+                    return _prop.fget(self_)
+
+                def setter(self_, val, _prop=prop, _state=state):
+                    if _state["left"] > 0 and val is not None:
+                        _state["left"] -= 1
+                        self_.disconnect()
+                    if not self_.connected:         # (stays down until the engine reconnects)
+                        raise _ex.CloudDisconnectedError("connection dropped while restoring the cursor")
+                    return _prop.fset(self_, val)
+                p.__class__ = type(base_cls.__name__ + "DropConn", (base_cls,),
+                                   {"current_cursor": property(getter, setter), "_vmc_dropconn": True})
         self._build_cs()
 
     def prompt_run(self, limit=400):
-        """default schedule: first state-changing action in the order IL, IR, S, UL, UR; returns the history"""
+        """default schedule: first state-changing action in the order IL, IR, S, UL, UR (or opts["prompt_order"]); returns
+        the history"""
         hist = []
         k = self.key()
+        po = self.opts.get("prompt_order")
         for _ in range(limit):
             progressed = False
-            for a in [x for x in ENGINE] + [x for x in self.actions() if x not in ENGINE]:
+            for a in (po or ([x for x in ENGINE] + [x for x in self.actions() if x not in ENGINE])):
                 if a not in self.actions():
                     continue
                 self.act(a)
